@@ -36,9 +36,37 @@ def c_expect_dense(ctx, args):
 
 def c_expect_poly(ctx, args):
     """np: expectation of Pauli / monomial / polynomial, including imaginary phases and complex coefficients"""
-    t, terms, how = args          # terms: [[g, p, [re, im]], ...]
-    s = NP.STATE(t)
+    t, terms, how = args[:3]          # terms: [[g, p, [re, im]], ...]
+    be = args[3] if len(args) > 3 else 'np'
     n = len(t[0]) // 2
+    if be == 'torch':
+        import torch, torchclifford as tc, vlib.impl_torch as TT
+        s = TT.STATE(t)
+        before = TT.oST(s)
+        if how == 'pauli':
+            g, p, _ = terms[0]
+            obj = TT.P([g, p])
+            want = np.trace(S.rho(t) @ D.op(g, p))
+        else:
+            obj = tc.paulialg.PauliPolynomial(TT.GS([x[0] for x in terms], 2 * n), TT.PS([x[1] for x in terms])).set_cs(torch.tensor([complex(*x[2]) for x in terms], dtype=torch.complex64))
+            want = sum(complex(*x[2]) * np.trace(S.rho(t) @ D.op(x[0], x[1])) for x in terms)
+
+        def osnap(o):
+            return {k: (v.tolist() if hasattr(v, 'tolist') else v) for k, v in vars(o).items()}
+        o_before = osnap(obj)
+        try:
+            got = complex(s.expect(obj))
+            got2 = complex(s.expect(obj))
+        except Exception as e:
+            return {'kind': 'oracle', 'where': 'torch:expect(%s)' % how, 'observed': 'raised ' + type(e).__name__, 'expected': [want.real, want.imag]}
+        if osnap(obj) != o_before:
+            return {'kind': 'oracle', 'where': 'torch:expect(%s) modified the observable it was given' % how, 'observed': str(osnap(obj))[:300], 'expected': str(o_before)[:300], 'tags': ['argument_modified', 'torch']}
+        if abs(got2 - got) > 1e-6 or abs(got - want) > 1e-5:
+            return {'kind': 'oracle', 'where': 'torch:expect(%s)' % how, 'observed': [[got.real, got.imag], [got2.real, got2.imag]], 'expected': [want.real, want.imag], 'tags': ['torch']}
+        if TT.oST(s) != before:
+            return {'kind': 'oracle', 'where': 'torch:expect modified its receiver', 'observed': TT.oST(s), 'expected': before}
+        return None
+    s = NP.STATE(t)
     before = S.st_list(s)
     if how == 'pauli':
         g, p, _ = terms[0]
@@ -192,6 +220,8 @@ def run(ctx):
             terms = [[o[0], rng.randint(0, 3), [rng.randint(-3, 3), rng.randint(-3, 3)]] for o in obs]
             how = rng.choice(['pauli', 'monomial', 'poly', 'poly'])
             do(ctx, 'expect_poly', [t, terms, how], nontrivial=('p', it) if any(x[1] % 2 for x in terms) else None)
+            if it % 3 == 0:
+                do(ctx, 'expect_poly', [t, terms, rng.choice(['pauli', 'poly', 'poly']), 'torch'], nontrivial=('pt', it))
         ctx.res.count('rank%d' % t[1])
     for it in range(int(200 * B)):
         n = rng.randint(1, 5)
